@@ -3,6 +3,7 @@ import Rangers.Basic.Line
 import Rangers.Model.Bls14Verify
 import Rangers.Model.Bls14Hash
 import Rangers.Model.Bls14Jac
+import Rangers.Model.Bls14G2
 /-!
 Line-protocol driver for C14. One op per line; see harness/cmd/c14/main.go for the
 Go side. Anything that does not parse answers `bad-op` (never a default).
@@ -34,6 +35,23 @@ def pt? (h : String) : Option Pt := do
   match g1Unmarshal .nil b with
   | (.pt q, .ok _) => some q
   | _ => none
+
+/-- parse a G2 point supplied by the harness: 128 canonical bytes, or `00` for infinity -/
+def pt2? (h : String) : Option Pt2 := do
+  let b ← ofHex? h
+  if b == [0] then some .inf
+  else
+    if b.length != 128 then none
+    match g2Unmarshal .nil b with
+    | (.pt q, .ok _) => some q
+    | _ => none
+
+def pt2List? : List String → Option (List Pt2)
+  | [] => some []
+  | h :: t => do
+    let p ← pt2? h
+    let ps ← pt2List? t
+    pure (p :: ps)
 
 def g1ValStr : G1Val → String
   | .nil => "nil"
@@ -138,6 +156,26 @@ def step (_ : Unit) (line : String) : Unit × String :=
       let x := jMul (Jac.ofPt p) k
       toHex (jMarshal (jAdd x x)) ++ " " ++ toHex (jMarshal (jNeg x)) ++ " " ++ toHex (jMarshal (jAdd x (jNeg x)))
     | _, _ => "bad-op"
+  | ["g2neg", a] => match pt2? a with
+    | some p => toHex (g2Marshal p.neg)
+    | none => "bad-op"
+  | ["g2add", a, b] => match pt2? a, pt2? b with
+    | some p, some q => toHex (g2Marshal (p.add q))
+    | _, _ => "bad-op"
+  | ["g2mul", a, k] => match pt2? a, k.toNat? with
+    | some p, some k => toHex (g2Marshal (p.mul k))
+    | _, _ => "bad-op"
+  | ["pkgen", k] => match k.toNat? with
+    | some k =>
+      let pk := generatePubkey k
+      -- serialise, and parse back the way every consumer does
+      pubReport pk ++ " back=" ++ pubReport (byteToPublicKey (Pub.serialize pk))
+    | none => "bad-op"
+  | "pkagg" :: hs => match pt2List? hs with
+    | some ps => match aggregatePubkeys ps with
+      | some q => toHex (g2Marshal q)
+      | none => "nil"
+    | none => "bad-op"
   | ["skser", k] => match k.toNat? with
     | some k => toHex (scalarSerialize k)
     | none => "bad-op"
